@@ -4,7 +4,7 @@ use std::io::Write;
 use crate::model::{gen_model, gen_text, AbsModel, GenOpts};
 use crate::util::{hexs, Rng};
 
-const CFG: &str = "fct";
+pub const CFG: &str = "fct";
 
 fn all_strings(alphabet: &[char], max_len: usize) -> Vec<String> {
     let mut out = vec![];
@@ -88,6 +88,24 @@ pub fn gen_c01(out: &mut dyn Write, thorough: bool, seed: u64) {
                 let (m2, _) = gen_model(&mut r, &opts);
                 let first = if r.chance(1, 2) { 1 } else { 0 };
                 writeln!(out, "H {CFG} {mt}^00!{}^00 Fraw:{},pred:{first},pred:0,obs:SB,spec:0 c01", m2.to_text(), hexs(&text)).unwrap();
+                continue;
+            }
+            // the text reaches a USED sentence object through any of the three updates, right after an update that was rejected (and,
+            // every other time, after the object had been predicted with other content): whatever a rejected update leaves behind
+            // must not reach the prediction of the next accepted text
+            if r.chance(1, 5) {
+                let chars: Vec<char> = text.chars().collect();
+                let bad = *r.pick(&["raw:6100", "tok:2061", "tok:612020", "tok:6100", "part:6178", "part:617861", "part:61007c62"]);
+                let good = match r.below(3) {
+                    0 => format!("raw:{}", hexs(&text)),
+                    1 => {
+                        let sep = if r.chance(1, 2) { " " } else { "" };
+                        format!("tok:{}", hexs(&chars.iter().map(|c| if matches!(c, ' ' | '/' | '\\') { format!("\\{c}") } else { c.to_string() }).collect::<Vec<_>>().join(sep)))
+                    }
+                    _ => format!("part:{}", hexs(&chars.iter().enumerate().map(|(i, c)| if i == 0 { c.to_string() } else { format!("{}{c}", *r.pick(&[' ', '|', '-'])) }).collect::<String>())),
+                };
+                let first = if r.chance(1, 2) { format!("Fraw:{},pred:0,", hexs("ab")) } else { String::new() };
+                writeln!(out, "H {CFG} {mt}^00 {first}{bad},{good},pred:0,obs:SB,spec:0 c01").unwrap();
                 continue;
             }
             // predicted, relabelled by hand through `boundaries_mut` (unknowns included), predicted again by the same predictor
